@@ -1,24 +1,91 @@
-//! `run <file>`: run a program in-process with captured stdio; prints a canonical record.
+//! `run [options] <file>` / `runbatch`: run programs in-process with captured stdio under a chosen
+//! collection schedule, cache mode, step limit, optionally with the per-instruction probe, and
+//! print one JSON record per program.
+use laythe_core::allocator_verif::{self, Schedule};
 use laythe_env::{
   io::Io,
   stdio::support::{IoStdioTest, StdioTestContainer, TestWriter},
 };
 use laythe_native::{env::IoEnvNative, fs::IoFsNative, time::IoTimeNative};
-use laythe_vm::vm::Vm;
+use laythe_vm::{
+  verif_cache,
+  vm::{verif as vm_verif, Vm},
+};
 use std::{io::Cursor, path::PathBuf, sync::Arc};
+
+#[derive(Clone, Debug, Default)]
+pub struct Opts {
+  pub gc: String,        // "default" | "never" | "every:K" | "coin:NUM/DEN:SEED"
+  pub full: Option<bool>,
+  pub caches_off: bool,
+  pub probe: bool,
+  pub steps: u64,
+  pub stats: bool,
+  pub repl: bool,
+  pub stdin: String,
+}
 
 pub struct Outcome {
   pub status: String,
   pub stdout: String,
   pub stderr: String,
+  pub extra: Vec<(String, String)>, // already-rendered JSON values
+}
+
+pub fn json_str(s: &str) -> String {
+  let mut o = String::with_capacity(s.len() + 2);
+  o.push('"');
+  for c in s.chars() {
+    match c {
+      '"' => o.push_str("\\\""),
+      '\\' => o.push_str("\\\\"),
+      '\n' => o.push_str("\\n"),
+      '\r' => o.push_str("\\r"),
+      '\t' => o.push_str("\\t"),
+      c if (c as u32) < 0x20 => o.push_str(&format!("\\u{:04x}", c as u32)),
+      c => o.push(c),
+    }
+  }
+  o.push('"');
+  o
+}
+
+fn parse_schedule(gc: &str) -> (Schedule, u64, bool) {
+  // returns (schedule, seed, never)
+  let parts: Vec<&str> = gc.split(':').collect();
+  match parts.as_slice() {
+    ["every", k] => (Schedule::EveryK(k.parse().unwrap_or(1)), 1, false),
+    ["coin", frac, seed] => {
+      let (n, d) = frac.split_once('/').unwrap_or(("1", "10"));
+      (
+        Schedule::Coin {
+          num: n.parse().unwrap_or(1),
+          den: d.parse().unwrap_or(10),
+        },
+        seed.parse().unwrap_or(1),
+        false,
+      )
+    },
+    ["never"] => (Schedule::Default, 1, true),
+    _ => (Schedule::Default, 1, false),
+  }
 }
 
 pub fn run_source(path: PathBuf, src: &str, stdin: &str) -> Outcome {
+  run_with(path, src, &Opts { stdin: stdin.to_string(), ..Opts::default() })
+}
+
+pub fn run_with(path: PathBuf, src: &str, opts: &Opts) -> Outcome {
+  let lines: Vec<String> = if opts.repl {
+    opts.stdin.split_inclusive('\n').map(|s| s.to_string()).collect()
+  } else {
+    vec![]
+  };
   let container = Arc::new(StdioTestContainer {
     stdout: TestWriter::default(),
     stderr: TestWriter::default(),
-    stdin: Box::new(Cursor::new(Vec::from(stdin.as_bytes()))),
-    lines: vec![],
+    stdin: Box::new(Cursor::new(Vec::from(opts.stdin.as_bytes()))),
+    lines,
     line_index: Box::new(0),
   });
   let io = Io::default()
@@ -27,12 +94,62 @@ pub fn run_source(path: PathBuf, src: &str, stdin: &str) -> Outcome {
     .with_fs(Arc::new(IoFsNative()))
     .with_env(Arc::new(IoEnvNative()));
   let src = src.to_string();
-  let r = std::panic::catch_unwind(std::panic::AssertUnwindSafe(move || {
+  let (schedule, seed, never) = parse_schedule(&opts.gc);
+  let opts2 = opts.clone();
+  let mut extra: Vec<(String, String)> = vec![];
+  let r = std::panic::catch_unwind(std::panic::AssertUnwindSafe(|| {
+    allocator_verif::set_schedule(Schedule::Default, 1);
+    allocator_verif::set_force_full(None);
+    verif_cache::set_caches_off(false);
+    vm_verif::enable(false);
+    vm_verif::set_step_limit(0);
+    let _ = vm_verif::take();
     let mut vm = Vm::new(io);
-    vm.run(path, &src)
+    // everything below applies to the program, not to the construction of the standard library
+    allocator_verif::set_schedule(schedule, seed);
+    allocator_verif::set_force_full(opts2.full);
+    verif_cache::set_caches_off(opts2.caches_off);
+    vm_verif::enable(opts2.probe);
+    vm_verif::set_step_limit(opts2.steps);
+    if never {
+      vm.verif_set_next_gc(usize::MAX);
+    }
+    let res = if opts2.repl { vm.repl() } else { vm.run(path, &src) };
+    vm_verif::enable(false);
+    vm_verif::set_step_limit(0);
+    allocator_verif::set_schedule(Schedule::Default, 1);
+    let mut ex: Vec<(String, String)> = vec![];
+    if opts2.stats {
+      let before = vm.verif_alloc_stats();
+      allocator_verif::set_force_full(Some(true));
+      vm.verif_collect();
+      let after = vm.verif_alloc_stats();
+      let keys = vm.verif_intern_keys();
+      allocator_verif::set_force_full(None);
+      let show = |s: &allocator_verif::Stats| {
+        format!(
+          "{{\"bytes_allocated\":{},\"next_gc\":{},\"gc_count\":{},\"heap_len\":{},\"obj_heap_len\":{},\"nursery_len\":{},\"heap_bytes\":{},\"obj_heap_bytes\":{},\"nursery_bytes\":{},\"intern_len\":{},\"temp_roots\":{}}}",
+          s.bytes_allocated, s.next_gc, s.gc_count, s.heap_len, s.obj_heap_len, s.nursery_len, s.heap_bytes,
+          s.obj_heap_bytes, s.nursery_bytes, s.intern_len, s.temp_roots
+        )
+      };
+      ex.push(("stats_end".to_string(), show(&before)));
+      ex.push(("stats_after_full".to_string(), show(&after)));
+      ex.push(("intern_after_full".to_string(), keys.len().to_string()));
+    }
+    ex.push(("scheduled_collections".to_string(), allocator_verif::scheduled_collections().to_string()));
+    (res, ex)
   }));
+  allocator_verif::set_schedule(Schedule::Default, 1);
+  allocator_verif::set_force_full(None);
+  verif_cache::set_caches_off(false);
+  vm_verif::enable(false);
+  vm_verif::set_step_limit(0);
   let status = match r {
-    Ok((code, exit)) => format!("{:?}:{}", exit, code),
+    Ok(((code, exit), ex)) => {
+      extra = ex;
+      format!("{:?}:{}", exit, code)
+    },
     Err(e) => {
       let msg = if let Some(s) = e.downcast_ref::<&str>() {
         s.to_string()
@@ -41,30 +158,127 @@ pub fn run_source(path: PathBuf, src: &str, stdin: &str) -> Outcome {
       } else {
         "?".to_string()
       };
-      format!("PANIC:{}", msg.replace('\n', " "))
+      if msg.contains("verif step limit exceeded") {
+        "STEPLIMIT".to_string()
+      } else {
+        format!("PANIC:{}", msg.replace('\n', " "))
+      }
     },
   };
+  if opts.probe {
+    let mut funs = vec![];
+    for f in vm_verif::take() {
+      let pts: Vec<String> = f
+        .points
+        .iter()
+        .map(|(o, d, h)| format!("[{},{},{}]", o, d, h))
+        .collect();
+      funs.push(format!(
+        "{{\"name\":{},\"code\":\"{}\",\"arity\":{},\"max_slots\":{},\"min_left\":{},\"points\":[{}]}}",
+        json_str(&f.name),
+        f.code.iter().map(|b| format!("{:02x}", b)).collect::<String>(),
+        f.arity,
+        f.max_slots,
+        f.min_left,
+        pts.join(",")
+      ));
+    }
+    extra.push(("probe".to_string(), format!("[{}]", funs.join(","))));
+  }
   Outcome {
     status,
     stdout: String::from_utf8_lossy(&container.stdout).to_string(),
     stderr: String::from_utf8_lossy(&container.stderr).to_string(),
+    extra,
   }
 }
 
-pub fn print_outcome(o: &Outcome) {
-  println!("status={}", o.status);
-  println!("stdout={:?}", o.stdout);
-  println!("stderr={:?}", o.stderr);
+pub fn outcome_json(file: &str, o: &Outcome) -> String {
+  let mut s = format!(
+    "{{\"file\":{},\"status\":{},\"stdout\":{},\"stderr\":{}",
+    json_str(file),
+    json_str(&o.status),
+    json_str(&o.stdout),
+    json_str(&o.stderr)
+  );
+  for (k, v) in &o.extra {
+    s.push_str(&format!(",{}:{}", json_str(k), v));
+  }
+  s.push('}');
+  s
+}
+
+/// options: --gc X --full 0|1 --caches-off --probe --steps N --stats --repl --stdin-file F
+pub fn parse_opts(args: &[String]) -> (Opts, Vec<String>) {
+  let mut o = Opts { gc: "default".to_string(), ..Opts::default() };
+  let mut files = vec![];
+  let mut i = 0;
+  while i < args.len() {
+    match args[i].as_str() {
+      "--gc" => {
+        i += 1;
+        o.gc = args.get(i).cloned().unwrap_or_default();
+      },
+      "--full" => {
+        i += 1;
+        o.full = args.get(i).map(|v| v == "1");
+      },
+      "--caches-off" => o.caches_off = true,
+      "--probe" => o.probe = true,
+      "--stats" => o.stats = true,
+      "--repl" => o.repl = true,
+      "--steps" => {
+        i += 1;
+        o.steps = args.get(i).and_then(|v| v.parse().ok()).unwrap_or(0);
+      },
+      "--stdin-file" => {
+        i += 1;
+        o.stdin = args.get(i).and_then(|f| std::fs::read_to_string(f).ok()).unwrap_or_default();
+      },
+      f => files.push(f.to_string()),
+    }
+    i += 1;
+  }
+  (o, files)
+}
+
+fn run_one(opts: &Opts, file: &str) -> String {
+  if opts.repl {
+    let o = run_with(PathBuf::from("repl"), "", opts);
+    return outcome_json(file, &o);
+  }
+  match std::fs::read_to_string(file) {
+    Ok(src) => {
+      let o = run_with(PathBuf::from(file), &src, opts);
+      outcome_json(file, &o)
+    },
+    Err(e) => format!("{{\"file\":{},\"status\":\"UNREADABLE\",\"stdout\":\"\",\"stderr\":{}}}", json_str(file), json_str(&e.to_string())),
+  }
 }
 
 pub fn main(args: &[String]) -> i32 {
   std::panic::set_hook(Box::new(|_| {}));
-  let path = match args.first() {
-    Some(p) => p.clone(),
-    None => return 2,
-  };
-  let src = std::fs::read_to_string(&path).unwrap();
-  let o = run_source(PathBuf::from(&path), &src, "");
-  print_outcome(&o);
+  let (opts, files) = parse_opts(args);
+  for f in files {
+    println!("{}", run_one(&opts, &f));
+  }
+  0
+}
+
+/// one request per stdin line: the same words as the command line of `run`
+pub fn main_batch() -> i32 {
+  use std::io::{BufRead, Write};
+  std::panic::set_hook(Box::new(|_| {}));
+  let stdout = std::io::stdout();
+  for line in std::io::stdin().lock().lines() {
+    let line = line.unwrap();
+    let words: Vec<String> = line.split_whitespace().map(|s| s.to_string()).collect();
+    let (opts, files) = parse_opts(&words);
+    for f in files {
+      let mut out = stdout.lock();
+      writeln!(out, "{}", run_one(&opts, &f)).unwrap();
+      out.flush().unwrap();
+    }
+  }
   0
 }
